@@ -79,4 +79,15 @@ AsFloatWant(x) ==
          IF t = <<>> THEN {Val(TNone)}
          ELSE LET p == ParseNum(Body(t)) IN
               IF p.ok THEN {Val(TNum(p.m, p.e + Power(t)))} ELSE NotANumber(x)
+
+\* ---- every call of the text area: what it must show, where the rules above are all there is to say, and the features of
+\* the input that findings are filed under (printed next to the case; they decide nothing)
+AllWant(x) == IF x.op = "as_float" THEN AsFloatWant(x.x) ELSE TextWant(x)
+AllInDomain(x) == IF x.op = "as_float" THEN NumInDomain(x.x) ELSE TextInDomain(x)
+AllClause(x, out) == IF x.op = "as_float" THEN (IF out.kind = "exc" THEN "as_float_raised" ELSE "as_float_result") ELSE TextClause(x, out)
+Tags(x) == IF x.op = "as_float" /\ IsStrV(x.x) /\ Clean(x.x[2]) # <<>>
+           THEN LET t == Clean(x.x[2])  b == Body(t) IN
+                [negpower |-> IF Power(t) < 0 THEN 1 ELSE 0,
+                 scineg   |-> IF \E i \in 1..(Len(b) - 1) : b[i] \in {101, 69} /\ b[i + 1] = 45 THEN 1 ELSE 0]
+           ELSE [negpower |-> 0, scineg |-> 0]
 =============================================================================
